@@ -22,6 +22,8 @@ pub(super) struct MulAddFusion<F> {
     backwards_computed: HashMap<WitnessId, usize>,
     /// Witnesses set before execution (private inputs); they have no defining op.
     inputs: hashbrown::HashSet<WitnessId>,
+    /// Number of ops that write each witness (a slot shared through `connect` has several).
+    writer_counts: HashMap<WitnessId, usize>,
 }
 
 impl<F: Field> MulAddFusion<F> {
@@ -38,6 +40,7 @@ impl<F: Field> MulAddFusion<F> {
             defs: HashMap::with_capacity(ops.len()),
             backwards_computed: HashMap::new(),
             inputs: inputs.iter().copied().collect(),
+            writer_counts: HashMap::new(),
         };
         fusion.scan_use_counts(ops);
         fusion.scan_defs(ops);
@@ -69,6 +72,7 @@ impl<F: Field> MulAddFusion<F> {
 
     /// Inserts a def unless the witness is already a Const (connect aliasing).
     fn insert_def(&mut self, id: WitnessId, idx: usize, def: OpDef<F>) {
+        *self.writer_counts.entry(id).or_default() += 1;
         if !self.is_const(&id) {
             self.defs.insert(id, IndexedDef::new(idx, def));
         }
@@ -89,11 +93,30 @@ impl<F: Field> MulAddFusion<F> {
     fn scan_use_counts(&mut self, ops: &[Op<F>]) {
         for op in ops {
             match op {
-                Op::Alu { a, b, c, .. } => {
+                Op::Alu {
+                    kind,
+                    a,
+                    b,
+                    c,
+                    intermediate_out,
+                    ..
+                } => {
                     *self.use_counts.entry(*a).or_default() += 1;
                     *self.use_counts.entry(*b).or_default() += 1;
                     if let Some(c) = c {
                         *self.use_counts.entry(*c).or_default() += 1;
+                    }
+                    // A Horner step reads its accumulator from `intermediate_out`.
+                    if *kind == AluOpKind::HornerAcc
+                        && let Some(acc) = intermediate_out
+                    {
+                        *self.use_counts.entry(*acc).or_default() += 1;
+                    }
+                }
+                // A hint reads its inputs too: a product it consumes must stay constrained.
+                Op::Hint { inputs, .. } => {
+                    for &id in inputs {
+                        *self.use_counts.entry(id).or_default() += 1;
                     }
                 }
                 Op::NonPrimitiveOpWithExecutor { inputs, .. } => {
@@ -110,6 +133,7 @@ impl<F: Field> MulAddFusion<F> {
         for (idx, op) in ops.iter().enumerate() {
             match op {
                 Op::Const { out, val } => {
+                    *self.writer_counts.entry(*out).or_default() += 1;
                     // Always insert consts (they win over any prior def).
                     self.defs
                         .insert(*out, IndexedDef::new(idx, OpDef::Const(*val)));
@@ -209,6 +233,15 @@ impl<F: Field> MulAddFusion<F> {
 
         // Single-use, non-const mul
         if self.uses(&mul_result) != 1 || self.is_const(&mul_result) {
+            return None;
+        }
+
+        // The fused row does not constrain the product slot. If that slot is also written by
+        // another op or is a private input (aliased through `connect`), dropping the mul would
+        // drop the equality between the two.
+        if self.writer_counts.get(&mul_result).copied().unwrap_or(0) != 1
+            || self.inputs.contains(&mul_result)
+        {
             return None;
         }
 
